@@ -319,6 +319,8 @@ pub const ELEM_NAMES: &[&str] = &[
     "_", "__", "_.", "_-_", "x:_", "_1", "A", "a_", "a__b",
     // names that are concatenations / prefixes of other names (separator-less keys collide on them)
     "ab", "bc", "abc", "ca", "items", "item", "sid", "i", "dx", "idx",
+    // combining marks and conjuncts (escaped by Debug formatting, reordered by normalisation)
+    "e\u{301}x", "ez", "e\u{301}", "\u{915}\u{94d}\u{937}", "\u{915}\u{92e}", "a\u{308}b", "ab\u{308}",
     // names other vocabularies treat specially
     "br", "hr", "img", "meta", "html", "body", "script",
 ];
